@@ -2,6 +2,8 @@
     Gregorian UTC date and time of every instant a SystemTime can hold (specification: Time/Civil.v).
 
     Structure of the argument (every statement is for *all* instants; nothing is bounded):
+      - the program text is TVGen.Gen_datetime (translated from datetime.rs on every run); the proofs below
+        execute it symbolically with tactics that do not depend on the names of its temporaries;
       - [split_ok], [day_split_ok], [cycle_split_ok], [years_of_ok], [finish_ok]: the blocks whose inputs range
         over 64-bit values are handled symbolically (lia over the truncating-division equations), for every
         *sound* mode (a mode in which an operation whose mathematical result fits its type returns it);
@@ -9,7 +11,7 @@
       - [cycle_sweep]: the block that depends only on the day within the 400-year cycle (146097 values) is
         checked by kernel computation against [days_from_civil] in [strict] mode, lifted to a universally
         quantified statement by [forall_range_spec], and transferred to every sound mode ([in_cycle_transfer],
-        [month_loop_transfer]);
+        [months_of_transfer]);
       - 400-year periodicity of the specification ([dfc_shift_400]) extends the cycle to all of Z. *)
 From Coq Require Import ZArith Lia Bool List.
 From TV Require Import Time.Civil Time.CivilProofs Time.Sweep Time.Musl.
@@ -69,7 +71,8 @@ Proof. intros ty a b Hb F. unfold rem. destruct (Z.eqb_spec b 0); [contradiction
 Definition sound (md : mode) : Prop :=
   (forall ty x, fits ty x = true -> m_arith md ty x = Some x) /\
   (forall ty x, fits ty x = true -> m_cast md ty x = Some x) /\
-  m_dassert md true = Some tt.
+  m_dassert md true = Some tt /\
+  (forall ty x, fits ty x = true -> m_wrapping md ty x = Some x).
 
 Lemma sound_release : sound release.
 Proof. repeat split; intros; cbn; unfold wr; rewrite ?wrap_fits by assumption; reflexivity. Qed.
@@ -82,54 +85,121 @@ Ltac fits_tac :=
   apply fits_intro; cbn [ty_min ty_max]; unfold I64_MIN, I64_MAX, NANOS_PER_SEC in *;
   Z.to_euclidean_division_equations; lia.
 
-(** Execute the next operation of the program in the goal, given soundness facts SA (arith) / SC (cast). *)
-Ltac op_ok SA SC :=
+(** Execute the next operation of the program in the goal, given soundness facts SA (arith) / SC (cast) /
+    SW (explicitly wrapping operations). *)
+Ltac op_ok SA SC SW :=
   match goal with
   | |- context [m_arith _ ?ty ?x] => rewrite (SA ty x) by fits_tac
   | |- context [m_cast _ ?ty ?x] => rewrite (SC ty x) by fits_tac
+  | |- context [m_wrapping _ ?ty ?x] => rewrite (SW ty x) by fits_tac
   | |- context [div ?ty ?a ?b] => rewrite (div_ok ty a b) by (first [lia | fits_tac])
   | |- context [rem ?ty ?a ?b] => rewrite (rem_ok ty a b) by (first [lia | fits_tac])
   end; cbv beta iota.
 
-(* ---------------------------------------------------------------------------------------------- *)
-(** * lines 247-262: splitting the SystemTime *)
+(** ... or the next debug_assert!, whose condition is a comparison that holds. *)
+Ltac step_ok SA SC SD SW :=
+  first [ op_ok SA SC SW
+        | match goal with
+          | |- context [m_dassert _ ?b] =>
+              replace b with true by (symmetry; apply Z.leb_le; lia); rewrite SD; cbv beta iota
+          end ].
 
-(** The one instant at which the debug_assert fails (finding F20). *)
-Definition F20_instant (tv_sec tv_nsec : Z) : Prop := tv_sec = I64_MIN /\ tv_nsec = 0.
+Ltac unfold_ops := unfold add, sub, mul, neg, wrapping_neg in *.
+
+(* ---------------------------------------------------------------------------------------------- *)
+(** * `let (t, nanos) = match timestamp.duration_since(UNIX_EPOCH) { .. }`: splitting the SystemTime *)
+
+(** The earliest representable instant, UNIX_EPOCH - 2^63 s.  Its distance back to the epoch, 2^63 s, is the
+    one value of `duration.as_secs()` that `as i64` changes (to i64::MIN) and whose negation must wrap. *)
+Definition earliest_instant (tv_sec tv_nsec : Z) : Prop := tv_sec = I64_MIN /\ tv_nsec = 0.
 
 Lemma split_ok : forall md, sound md -> forall sec nsec,
-  valid_systemtime sec nsec -> ~ F20_instant sec nsec -> split md sec nsec = Some (sec, nsec).
+  valid_systemtime sec nsec -> ~ earliest_instant sec nsec -> split md sec nsec = Some (sec, nsec).
 Proof.
-  intros md (SA & SC & SD) sec nsec [Hs Hn] NK. unfold F20_instant in NK.
-  unfold split, std_duration_since_epoch, neg, sub.
+  intros md (SA & SC & SD & SW) sec nsec [Hs Hn] NK. unfold earliest_instant in NK.
+  unfold split, std_duration_since_epoch. unfold_ops.
   unfold I64_MIN, I64_MAX, NANOS_PER_SEC in *.
   destruct (Z.leb_spec 0 sec).
-  - rewrite (SC U64) by fits_tac.
-    replace (sec <=? 9223372036854775807) with true by (symmetry; apply Z.leb_le; lia).
-    rewrite SD. rewrite (SC I64) by fits_tac. reflexivity.
+  - repeat step_ok SA SC SD SW. reflexivity.
   - destruct (Z.eqb_spec nsec 0).
-    + subst nsec. rewrite (SC U64) by fits_tac.
-      replace (- sec <=? 9223372036854775807) with true by (symmetry; apply Z.leb_le; lia).
-      rewrite SD. rewrite (SC I64) by fits_tac. cbn [Z.eqb].
-      rewrite (SA I64) by fits_tac. rewrite Z.opp_involutive. reflexivity.
-    + rewrite (SC U64) by fits_tac.
-      replace (- sec - 1 <=? 9223372036854775807) with true by (symmetry; apply Z.leb_le; lia).
-      rewrite SD. rewrite (SC I64) by fits_tac.
+    + subst nsec. repeat step_ok SA SC SD SW. cbn [Z.eqb]. repeat step_ok SA SC SD SW.
+      rewrite Z.opp_involutive. reflexivity.
+    + repeat step_ok SA SC SD SW.
       destruct (Z.eqb_spec (1000000000 - nsec) 0); [lia|].
-      rewrite (SA I64 (- (- sec - 1))) by fits_tac.
-      rewrite (SA I64) by fits_tac. rewrite (SA U32) by fits_tac.
+      repeat step_ok SA SC SD SW.
       f_equal. f_equal; ring.
 Qed.
 
-(** At the F20 instant the release build wraps twice and still obtains the right pair. *)
-Lemma split_release_F20 : split release I64_MIN 0 = Some (I64_MIN, 0).
-Proof. vm_compute. reflexivity. Qed.
+(** At the earliest instant both shipped profiles obtain the right pair: `2^63 as i64` is i64::MIN and
+    `i64::MIN.wrapping_neg()` is i64::MIN again; the (relaxed) debug assertion holds.  In [strict] reading the
+    cast is reported, as it must be: it is the one cast in the function that changes a value, by design. *)
+Lemma split_earliest :
+  split release I64_MIN 0 = Some (I64_MIN, 0) /\ split debug I64_MIN 0 = Some (I64_MIN, 0) /\
+  split strict I64_MIN 0 = None.
+Proof. repeat split; vm_compute; reflexivity. Qed.
 
-Lemma split_debug_F20 : split debug I64_MIN 0 = None /\ split strict I64_MIN 0 = None.
-Proof. split; vm_compute; reflexivity. Qed.
+Lemma split_shipped : forall md, md = release \/ md = debug -> forall sec nsec,
+  valid_systemtime sec nsec -> split md sec nsec = Some (sec, nsec).
+Proof.
+  intros md Hmd sec nsec V.
+  assert (Smd : sound md) by (destruct Hmd; subst; [apply sound_release | apply sound_debug]).
+  destruct (Z.eq_dec sec I64_MIN) as [E1|NE]; [destruct (Z.eq_dec nsec 0) as [E2|NE]|].
+  - subst sec nsec. destruct Hmd; subst md; apply split_earliest.
+  - apply (split_ok md Smd sec nsec V). unfold earliest_instant. tauto.
+  - apply (split_ok md Smd sec nsec V). unfold earliest_instant. tauto.
+Qed.
+
+(** ** Finding F20 (repaired in a774a84): the shape of the Err branch before the repair, kept for the record.
+    `debug_assert!(duration.as_secs() <= i64::MAX as u64)` and `(-secs, 0)`: at the earliest instant the debug
+    build panicked (assertion; and the unary minus of i64::MIN would have overflowed next). *)
+Definition split_before_a774a84 (md : mode) (tv_sec tv_nsec : Z) : option (Z * Z) :=
+  match std_duration_since_epoch tv_sec tv_nsec with
+  | DOk secs nanos =>
+      imax <- m_cast md U64 I64_MAX ;;
+      _ <- m_dassert md (secs <=? imax) ;;
+      t <- m_cast md I64 secs ;;
+      Some (t, nanos)
+  | DErr secs nanos =>
+      imax <- m_cast md U64 I64_MAX ;;
+      _ <- m_dassert md (secs <=? imax) ;;                   (* debug_assert!(duration.as_secs() <= i64::MAX as u64) *)
+      secs <- m_cast md I64 secs ;;
+      if nanos =? 0 then
+        t <- neg md I64 secs ;;                              (* (-secs, 0) *)
+        Some (t, 0)
+      else
+        a <- neg md I64 secs ;;
+        t <- sub md I64 a 1 ;;
+        n <- sub md U32 NANOS_PER_SEC nanos ;;
+        Some (t, n)
+  end.
+
+Lemma F20_old_shape_refuted :
+  valid_systemtime I64_MIN 0 /\
+  split_before_a774a84 debug I64_MIN 0 = None /\                    (* the panic that was F20 *)
+  split_before_a774a84 release I64_MIN 0 = Some (I64_MIN, 0) /\     (* release wrapped twice and was right *)
+  split debug I64_MIN 0 = Some (I64_MIN, 0) /\                      (* the current source *)
+  (forall sec nsec, valid_systemtime sec nsec -> ~ earliest_instant sec nsec ->
+     split_before_a774a84 debug sec nsec = split debug sec nsec).   (* and nothing else changed *)
+Proof.
+  split; [unfold valid_systemtime, I64_MIN, I64_MAX, NANOS_PER_SEC; lia|].
+  split; [vm_compute; reflexivity|]. split; [vm_compute; reflexivity|]. split; [vm_compute; reflexivity|].
+  intros sec nsec V NK. rewrite (split_ok debug sound_debug sec nsec V NK).
+  destruct sound_debug as (SA & SC & SD & SW). destruct V as [Hs Hn]. unfold earliest_instant in NK.
+  unfold split_before_a774a84, std_duration_since_epoch. unfold_ops.
+  unfold I64_MIN, I64_MAX, NANOS_PER_SEC in *.
+  destruct (Z.leb_spec 0 sec).
+  - repeat step_ok SA SC SD SW. reflexivity.
+  - destruct (Z.eqb_spec nsec 0).
+    + subst nsec. repeat step_ok SA SC SD SW. cbn [Z.eqb]. repeat step_ok SA SC SD SW.
+      rewrite Z.opp_involutive. reflexivity.
+    + repeat step_ok SA SC SD SW.
+      destruct (Z.eqb_spec (1000000000 - nsec) 0); [lia|].
+      repeat step_ok SA SC SD SW.
+      f_equal. f_equal; ring.
+Qed.
 
 (* ---------------------------------------------------------------------------------------------- *)
-(** * lines 272-284: day number, second of day, 400-year cycle *)
+(** * day number, second of day, 400-year cycle *)
 
 Definition LEAPOCH_DAY : Z := Z.quot LEAPOCH 86400.
 
@@ -139,29 +209,29 @@ Proof. vm_compute. reflexivity. Qed.
 Lemma day_split_ok : forall md, sound md -> forall t, I64_MIN <= t <= I64_MAX ->
   day_split md t = Some (t / 86400 - LEAPOCH_DAY, t mod 86400).
 Proof.
-  intros md (SA & SC & SD) t Ht. unfold day_split, add, sub, LEAPOCH_DAY.
+  intros md (SA & SC & SD & SW) t Ht. unfold day_split, LEAPOCH_DAY. unfold_ops.
   change (Z.quot LEAPOCH 86400) with 11017. unfold LEAPOCH.
   unfold I64_MIN, I64_MAX in *.
-  do 2 op_ok SA SC. change (Z.quot 951868800 86400) with 11017.
-  repeat op_ok SA SC.
+  do 2 op_ok SA SC SW. change (Z.quot 951868800 86400) with 11017.
+  repeat op_ok SA SC SW.
   destruct (Z.ltb_spec (Z.rem t 86400) 0).
-  - repeat op_ok SA SC. f_equal. f_equal; Z.to_euclidean_division_equations; lia.
-  - f_equal. f_equal; Z.to_euclidean_division_equations; lia.
+  - repeat op_ok SA SC SW. f_equal. f_equal; Z.to_euclidean_division_equations; lia.
+  - cbv beta iota. f_equal. f_equal; Z.to_euclidean_division_equations; lia.
 Qed.
 
 Lemma cycle_split_ok : forall md, sound md -> forall days,
   -110000000000000 <= days <= 110000000000000 ->
   cycle_split md days = Some (days / 146097, days mod 146097).
 Proof.
-  intros md (SA & SC & SD) days Hd. unfold cycle_split, add, sub. unfold DAYS_PER_400Y.
-  repeat op_ok SA SC.
+  intros md (SA & SC & SD & SW) days Hd. unfold cycle_split. unfold_ops. unfold DAYS_PER_400Y.
+  repeat op_ok SA SC SW.
   destruct (Z.ltb_spec (Z.rem days 146097) 0).
-  - repeat op_ok SA SC. f_equal. f_equal; Z.to_euclidean_division_equations; lia.
-  - f_equal. f_equal; Z.to_euclidean_division_equations; lia.
+  - repeat op_ok SA SC SW. f_equal. f_equal; Z.to_euclidean_division_equations; lia.
+  - cbv beta iota. f_equal. f_equal; Z.to_euclidean_division_equations; lia.
 Qed.
 
 (* ---------------------------------------------------------------------------------------------- *)
-(** * lines 286-313: inside one 400-year cycle — every day of the cycle, by kernel computation *)
+(** * inside one 400-year cycle — every day of the cycle, by kernel computation *)
 
 (** What the code does with day [r] of a cycle, and what it must be: the date it denotes (in the cycle
     that starts on 2000-03-01) has day number LEAPOCH_DAY + r and is a valid date; all intermediate values
@@ -170,7 +240,7 @@ Definition cycle_check (r : Z) : bool :=
   match in_cycle strict r with
   | Some (c, q, ry, rd) =>
     (0 <=? c) && (c <=? 3) && (0 <=? q) && (q <=? 24) && (0 <=? ry) && (ry <=? 3) &&
-    match month_loop strict (S (length DAYS_IN_MONTH)) 0 rd with
+    match months_of strict rd with
     | Some (mo, rd') =>
        (0 <=? mo) && (mo <=? 11) && (0 <=? rd') && (rd' <=? 30) &&
        (let yy := ry + 4 * q + 100 * c + (if 10 <=? mo then 1 else 0) in
@@ -188,7 +258,7 @@ Proof. vm_compute. reflexivity. Qed.
 Lemma cycle_facts : forall r, 0 <= r < 146097 ->
   exists c q ry rd mo rd',
     in_cycle strict r = Some (c, q, ry, rd) /\
-    month_loop strict (S (length DAYS_IN_MONTH)) 0 rd = Some (mo, rd') /\
+    months_of strict rd = Some (mo, rd') /\
     0 <= c <= 3 /\ 0 <= q <= 24 /\ 0 <= ry <= 3 /\ 0 <= mo <= 11 /\ 0 <= rd' <= 30 /\
     let yy := ry + 4 * q + 100 * c + (if 10 <=? mo then 1 else 0) in
     let m := (if 10 <=? mo then mo - 12 else mo) + 3 in
@@ -199,7 +269,7 @@ Proof.
   assert (Hr' : 0 <= r < 0 + Z.of_N (Z.to_N DAYS_PER_400Y)) by (change (Z.of_N (Z.to_N DAYS_PER_400Y)) with 146097; lia).
   pose proof (forall_range_spec _ _ _ cycle_sweep r Hr') as H. unfold cycle_check in H.
   destruct (in_cycle strict r) as [[[[c q] ry] rd]|] eqn:E1; [|discriminate H].
-  destruct (month_loop strict (S (length DAYS_IN_MONTH)) 0 rd) as [[mo rd']|] eqn:E2;
+  destruct (months_of strict rd) as [[mo rd']|] eqn:E2;
     [|rewrite andb_false_r in H; discriminate H].
   cbv zeta in H.
   repeat match goal with B : _ && _ = true |- _ => apply andb_true_iff in B; destruct B end.
@@ -235,43 +305,51 @@ Ltac tstep SA SC H :=
 Lemma in_cycle_transfer : forall md, sound md -> forall r v,
   in_cycle strict r = Some v -> in_cycle md r = Some v.
 Proof.
-  intros md (SA & SC & SD) r v H. unfold in_cycle, add, sub, mul in *.
+  intros md (SA & SC & SD & SW) r v H. unfold in_cycle in *. unfold_ops.
   cbn [m_arith m_cast strict] in H.
   repeat tstep SA SC H. all: exact H.
 Qed.
 
-Lemma month_loop_transfer : forall md, sound md -> forall fuel mo rd v,
-  month_loop strict fuel mo rd = Some v -> month_loop md fuel mo rd = Some v.
+Lemma month_loop_transfer : forall md, sound md -> forall fuel rd mo v,
+  month_loop strict fuel rd mo = Some v -> month_loop md fuel rd mo = Some v.
 Proof.
-  intros md (SA & SC & SD) fuel. induction fuel as [|fuel IH]; intros mo rd v H; [discriminate H|].
-  cbn [month_loop] in *. unfold add, sub in *. cbn [m_arith m_cast strict] in H.
+  intros md (SA & SC & SD & SW) fuel. induction fuel as [|fuel IH]; intros rd mo v H; [discriminate H|].
+  cbn [month_loop] in *. unfold_ops. cbn [m_arith m_cast strict] in H.
   repeat tstep SA SC H.
   - apply IH. exact H.
   - exact H.
 Qed.
 
+Lemma months_of_transfer : forall md, sound md -> forall rd v,
+  months_of strict rd = Some v -> months_of md rd = Some v.
+Proof.
+  intros md Smd rd v H. unfold months_of in *.
+  destruct (month_loop strict (S (length DAYS_IN_MONTH)) rd 0) as [w|] eqn:E; [|discriminate H].
+  rewrite (month_loop_transfer md Smd _ _ _ _ E). exact H.
+Qed.
+
 (* ---------------------------------------------------------------------------------------------- *)
-(** * lines 304-307 and 315-328 *)
+(** * `let mut years = ..` and the tail of the function *)
 
 Lemma years_of_ok : forall md, sound md -> forall ry q c qc,
   0 <= ry <= 3 -> 0 <= q <= 24 -> 0 <= c <= 3 -> -2147483648 <= qc <= 2147483647 ->
   years_of md ry q c qc = Some (ry + 4 * q + 100 * c + 400 * qc).
 Proof.
-  intros md (SA & SC & SD) ry q c qc H1 H2 H3 H4. unfold years_of, add, mul.
-  repeat op_ok SA SC. reflexivity.
+  intros md (SA & SC & SD & SW) ry q c qc H1 H2 H3 H4. unfold years_of. unfold_ops.
+  repeat op_ok SA SC SW. reflexivity.
 Qed.
 
 Lemma finish_ok : forall md, sound md -> forall years mo rd remsecs nanos,
   -1000000000000 <= years <= 1000000000000 -> 0 <= mo <= 11 -> 0 <= rd <= 30 -> 0 <= remsecs < 86400 ->
-  finish md years mo rd remsecs nanos =
+  finish md mo years rd remsecs nanos =
   Some (DT (years + (if 10 <=? mo then 1 else 0) + 2000) ((if 10 <=? mo then mo - 12 else mo) + 3) (rd + 1)
            (remsecs / 3600) ((remsecs / 60) mod 60) (remsecs mod 60) nanos).
 Proof.
-  intros md (SA & SC & SD) years mo rd remsecs nanos H1 H2 H3 H4. unfold finish, add, sub.
+  intros md (SA & SC & SD & SW) years mo rd remsecs nanos H1 H2 H3 H4. unfold finish. unfold_ops.
   destruct (10 <=? mo) eqn:E.
-  - apply Z.leb_le in E. repeat op_ok SA SC.
+  - apply Z.leb_le in E. repeat op_ok SA SC SW.
     f_equal. f_equal; Z.to_euclidean_division_equations; lia.
-  - apply Z.leb_gt in E. repeat op_ok SA SC.
+  - apply Z.leb_gt in E. repeat op_ok SA SC SW.
     f_equal. f_equal; Z.to_euclidean_division_equations; lia.
 Qed.
 
@@ -315,13 +393,13 @@ Proof.
   rewrite (in_cycle_transfer md S _ _ E1).
   assert (Hqc : -2147483648 <= days / 146097 <= 2147483647) by (Z.div_mod_to_equations; lia).
   rewrite (years_of_ok md S ry q c _ Hry Hq Hc Hqc).
-  rewrite (month_loop_transfer md S _ _ _ _ E2).
+  rewrite (months_of_transfer md S _ _ E2).
   assert (Hrs : 0 <= t mod 86400 < 86400) by (apply Z.mod_pos_bound; lia).
   assert (Hy : -1000000000000 <= ry + 4 * q + 100 * c + 400 * (days / 146097) <= 1000000000000)
     by (Z.div_mod_to_equations; lia).
   rewrite (finish_ok md S _ mo rd' (t mod 86400) nanos Hy Hmo Hrd' Hrs).
   eexists. split; [reflexivity|].
-  unfold is_civil_time_of. cbn [year month day hour minute second Musl.nanos].
+  unfold is_civil_time_of. cbn [year month day hour minute second MuslBase.nanos].
   set (yy := ry + 4 * q + 100 * c + (if 10 <=? mo then 1 else 0)) in *.
   set (m := (if 10 <=? mo then mo - 12 else mo) + 3) in *.
   replace (ry + 4 * q + 100 * c + 400 * (days / 146097) + (if 10 <=? mo then 1 else 0) + 2000)
@@ -334,56 +412,73 @@ Proof.
   subst days. Z.div_mod_to_equations. lia.
 Qed.
 
-(** For every sound mode and every instant except the F20 instant. *)
+(** For every sound mode (in particular the [strict] reading) and every instant except the earliest. *)
 Theorem from_systemtime_ok : forall md, sound md -> forall sec nsec,
-  valid_systemtime sec nsec -> ~ F20_instant sec nsec ->
+  valid_systemtime sec nsec -> ~ earliest_instant sec nsec ->
   exists dt, from_systemtime md sec nsec = Some dt /\ is_civil_time_of dt sec nsec.
 Proof.
   intros md S sec nsec V NK. unfold from_systemtime. rewrite (split_ok md S sec nsec V NK).
   destruct V as [Hs Hn]. exact (from_parts_ok md S sec nsec Hs).
 Qed.
 
-(** The release build (what ships), for *every* instant, the F20 instant included. *)
+(** Both shipped build profiles, for *every* instant, the earliest included. *)
+Theorem correct_shipped : forall md, md = release \/ md = debug -> forall sec nsec, valid_systemtime sec nsec ->
+  exists dt, from_systemtime md sec nsec = Some dt /\ is_civil_time_of dt sec nsec.
+Proof.
+  intros md Hmd sec nsec V. unfold from_systemtime. rewrite (split_shipped md Hmd sec nsec V).
+  assert (Smd : sound md) by (destruct Hmd; subst; [apply sound_release | apply sound_debug]).
+  destruct V as [Hs Hn]. exact (from_parts_ok md Smd sec nsec Hs).
+Qed.
+
 Theorem correct_release : forall sec nsec, valid_systemtime sec nsec ->
   exists dt, from_systemtime release sec nsec = Some dt /\ is_civil_time_of dt sec nsec.
+Proof. exact (correct_shipped release (or_introl eq_refl)). Qed.
+
+Theorem correct_debug : forall sec nsec, valid_systemtime sec nsec ->
+  exists dt, from_systemtime debug sec nsec = Some dt /\ is_civil_time_of dt sec nsec.
+Proof. exact (correct_shipped debug (or_intror eq_refl)). Qed.
+
+Lemma is_civil_time_of_inj : forall a b sec nsec,
+  is_civil_time_of a sec nsec -> is_civil_time_of b sec nsec -> a = b.
+Proof.
+  intros [y m d h mi s n] [y' m' d' h' mi' s' n'] sec nsec (Va & Ta & Sa & Na) (Vb & Tb & Sb & Nb).
+  cbn [year month day hour minute second MuslBase.nanos] in *.
+  destruct (secs_from_civil_inj _ _ _ _ _ _ _ _ _ _ _ _ Va Ta Vb Tb (eq_trans Sa (eq_sym Sb))) as [P1 P2].
+  congruence.
+Qed.
+
+(** No arithmetic overflows, no assertion fails, no index is out of bounds, for every instant: the debug build
+    (overflow checks and debug assertions on) succeeds and agrees with the release build.  And no cast changes a
+    value — the strictest reading of the code succeeds with the same result — for every instant but the earliest,
+    where `2^63 as i64` and `wrapping_neg` wrap on purpose ([split_earliest]). *)
+Theorem no_overflow : forall sec nsec, valid_systemtime sec nsec ->
+  exists dt, from_systemtime debug sec nsec = Some dt /\ from_systemtime release sec nsec = Some dt /\
+             is_civil_time_of dt sec nsec /\
+             (~ earliest_instant sec nsec -> from_systemtime strict sec nsec = Some dt).
 Proof.
   intros sec nsec V.
-  destruct (Z.eq_dec sec I64_MIN) as [E1|NE]; [destruct (Z.eq_dec nsec 0) as [E2|NE]|].
-  - subst. unfold from_systemtime. rewrite split_release_F20.
-    destruct V as [Hs _]. exact (from_parts_ok release sound_release I64_MIN 0 Hs).
-  - apply (from_systemtime_ok release sound_release sec nsec V). unfold F20_instant. tauto.
-  - apply (from_systemtime_ok release sound_release sec nsec V). unfold F20_instant. tauto.
+  destruct (correct_debug sec nsec V) as (d2 & E2 & C2).
+  destruct (correct_release sec nsec V) as (d3 & E3 & C3).
+  exists d2. rewrite (is_civil_time_of_inj d3 d2 _ _ C3 C2) in E3.
+  repeat split; try assumption; try apply C2.
+  intros NK. destruct (from_systemtime_ok strict sound_strict sec nsec V NK) as (d1 & E1 & C1).
+  rewrite (is_civil_time_of_inj d1 d2 _ _ C1 C2) in E1. exact E1.
 Qed.
 
-(** No cast changes a value, no arithmetic overflows, no assertion fails, no index is out of bounds:
-    the strictest reading of the code succeeds, and all three readings agree. *)
-Theorem no_overflow : forall sec nsec, valid_systemtime sec nsec -> ~ F20_instant sec nsec ->
-  exists dt, from_systemtime strict sec nsec = Some dt /\ from_systemtime debug sec nsec = Some dt /\
-             from_systemtime release sec nsec = Some dt /\ is_civil_time_of dt sec nsec.
+(** The earliest instant: exactly one value-changing cast, and it is the intended one. *)
+Theorem earliest_instant_wraps_by_design :
+  valid_systemtime I64_MIN 0 /\ earliest_instant I64_MIN 0 /\
+  from_systemtime strict I64_MIN 0 = None /\
+  std_duration_since_epoch I64_MIN 0 = DErr 9223372036854775808 0 /\
+  wrap I64 9223372036854775808 = I64_MIN /\ wrap I64 (- I64_MIN) = I64_MIN /\
+  exists dt, from_systemtime debug I64_MIN 0 = Some dt /\ from_systemtime release I64_MIN 0 = Some dt /\
+             is_civil_time_of dt I64_MIN 0.
 Proof.
-  intros sec nsec V NK.
-  destruct (from_systemtime_ok strict sound_strict sec nsec V NK) as (d1 & E1 & C1).
-  destruct (from_systemtime_ok debug sound_debug sec nsec V NK) as (d2 & E2 & C2).
-  destruct (from_systemtime_ok release sound_release sec nsec V NK) as (d3 & E3 & C3).
-  assert (U : forall a b, is_civil_time_of a sec nsec -> is_civil_time_of b sec nsec -> a = b).
-  { intros [y m d h mi s n] [y' m' d' h' mi' s' n'] (Va & Ta & Sa & Na) (Vb & Tb & Sb & Nb).
-    cbn [year month day hour minute second Musl.nanos] in *.
-    destruct (secs_from_civil_inj _ _ _ _ _ _ _ _ _ _ _ _ Va Ta Vb Tb (eq_trans Sa (eq_sym Sb))) as [P1 P2].
-    congruence. }
-  exists d1. rewrite (U d2 d1 C2 C1) in E2. rewrite (U d3 d1 C3 C1) in E3. auto.
-Qed.
-
-(** Finding F20: at the earliest representable SystemTime the debug build panics (the distance back to the
-    epoch is 2^63 s, one more than the debug_assert allows); the release build is right there too. *)
-Theorem F20_refuted :
-  valid_systemtime I64_MIN 0 /\ F20_instant I64_MIN 0 /\
-  from_systemtime debug I64_MIN 0 = None /\ from_systemtime strict I64_MIN 0 = None /\
-  exists dt, from_systemtime release I64_MIN 0 = Some dt /\ is_civil_time_of dt I64_MIN 0.
-Proof.
-  split; [unfold valid_systemtime, I64_MIN, I64_MAX, NANOS_PER_SEC; lia|].
-  split; [split; reflexivity|].
+  assert (V : valid_systemtime I64_MIN 0) by (unfold valid_systemtime, I64_MIN, I64_MAX, NANOS_PER_SEC; lia).
+  split; [exact V|]. split; [split; reflexivity|].
   split; [vm_compute; reflexivity|]. split; [vm_compute; reflexivity|].
-  apply correct_release. unfold valid_systemtime, I64_MIN, I64_MAX, NANOS_PER_SEC; lia.
+  split; [vm_compute; reflexivity|]. split; [vm_compute; reflexivity|].
+  destruct (no_overflow I64_MIN 0 V) as (dt & E2 & E3 & C & _). exists dt. auto.
 Qed.
 
 (** The functional form: the record is the one [civil_from_secs] (Hinnant's inverse) computes. *)
@@ -393,41 +488,41 @@ Definition dt_of_civil (c : (Z * Z * Z) * (Z * Z * Z)) (nsec : Z) : datetime :=
 Lemma is_civil_time_of_unique : forall dt sec nsec,
   is_civil_time_of dt sec nsec -> dt = dt_of_civil (civil_from_secs sec) nsec.
 Proof.
-  intros [y m d h mi s n] sec nsec (Va & Ta & Sa & Na). cbn [year month day hour minute second Musl.nanos] in *.
+  intros [y m d h mi s n] sec nsec (Va & Ta & Sa & Na). cbn [year month day hour minute second MuslBase.nanos] in *.
   destruct (civil_from_secs sec) as [[[y' m'] d'] [[h' mi'] s']] eqn:E.
   destruct (civil_from_secs_correct _ _ _ _ _ _ _ E) as (Vb & Tb & Sb).
   destruct (secs_from_civil_inj _ _ _ _ _ _ _ _ _ _ _ _ Va Ta Vb Tb (eq_trans Sa (eq_sym Sb))) as [P1 P2].
   unfold dt_of_civil. congruence.
 Qed.
 
-Theorem correct_release_functional : forall sec nsec, valid_systemtime sec nsec ->
-  from_systemtime release sec nsec = Some (dt_of_civil (civil_from_secs sec) nsec).
+Theorem correct_functional : forall md, md = release \/ md = debug -> forall sec nsec, valid_systemtime sec nsec ->
+  from_systemtime md sec nsec = Some (dt_of_civil (civil_from_secs sec) nsec).
 Proof.
-  intros sec nsec V. destruct (correct_release sec nsec V) as (dt & E & C).
+  intros md Hmd sec nsec V. destruct (correct_shipped md Hmd sec nsec V) as (dt & E & C).
   rewrite E. f_equal. apply is_civil_time_of_unique. exact C.
 Qed.
 
+Theorem correct_release_functional : forall sec nsec, valid_systemtime sec nsec ->
+  from_systemtime release sec nsec = Some (dt_of_civil (civil_from_secs sec) nsec).
+Proof. exact (correct_functional release (or_introl eq_refl)). Qed.
+
 (** Pre-1970 instants: std hands the code the distance *back* to the epoch; the code's split recovers the
-    floor pair (t, nanos) with t + nanos/1e9 the instant and 0 <= nanos < 1e9. *)
+    floor pair (t, nanos) with t + nanos/1e9 the instant and 0 <= nanos < 1e9 — for every such instant,
+    the earliest representable one included, in both build profiles. *)
 Theorem pre_epoch : forall sec nsec, valid_systemtime sec nsec -> sec < 0 ->
   exists secs nanos,
     std_duration_since_epoch sec nsec = DErr secs nanos /\
     0 <= nanos < NANOS_PER_SEC /\ 0 <= secs /\
     secs * NANOS_PER_SEC + nanos = - (sec * NANOS_PER_SEC + nsec) /\
     split release sec nsec = Some (sec, nsec) /\
-    (~ F20_instant sec nsec -> split debug sec nsec = Some (sec, nsec)).
+    split debug sec nsec = Some (sec, nsec).
 Proof.
   intros sec nsec V Hneg. pose proof V as [Hs Hn].
+  pose proof (split_shipped release (or_introl eq_refl) sec nsec V) as R.
+  pose proof (split_shipped debug (or_intror eq_refl) sec nsec V) as D.
   unfold std_duration_since_epoch.
   destruct (Z.leb_spec 0 sec); [lia|].
-  assert (R : split release sec nsec = Some (sec, nsec)).
-  { destruct (Z.eq_dec sec I64_MIN) as [E1|NE]; [destruct (Z.eq_dec nsec 0) as [E2|NE]|].
-    - subst. exact split_release_F20.
-    - apply (split_ok release sound_release sec nsec V). unfold F20_instant. tauto.
-    - apply (split_ok release sound_release sec nsec V). unfold F20_instant. tauto. }
   destruct (Z.eqb_spec nsec 0).
-  - exists (- sec), 0. unfold NANOS_PER_SEC in *. repeat split; try lia; try assumption.
-    intros NK. exact (split_ok debug sound_debug sec nsec V NK).
-  - exists (- sec - 1), (NANOS_PER_SEC - nsec). unfold NANOS_PER_SEC in *. repeat split; try lia; try assumption.
-    intros NK. exact (split_ok debug sound_debug sec nsec V NK).
+  - exists (- sec), 0. unfold NANOS_PER_SEC in *. repeat split; try lia; assumption.
+  - exists (- sec - 1), (NANOS_PER_SEC - nsec). unfold NANOS_PER_SEC in *. repeat split; try lia; assumption.
 Qed.
